@@ -309,6 +309,7 @@ package protocol
 // multi-page invariant needs division by the page size under quantifiers and does not discharge in reasonable time
 // with the installed solvers (spec/parked_contiguousPages_ReadAt.txt).
 //@ func (contiguousPages).ReadAt
+//@   assume BOUNDED: contiguousPages.ReadAt is verified only for runs of at most 3 pages (precondition len(pages) <= 3, loop unrolled 3 times); longer runs are not covered
 //@   requires len(pages) >= 1 && len(pages) <= 3 && pagesOK(pages) && pages[0].offset <= off && off + int64(len(b)) <= pages[0].offset + int64(len(pages)) * 65536
 //@   requires forall i :: 0 <= i && i < len(pages) ==> b.base != pages[i].buffer
 //@   requires len(b) <= 0x40000000 && 0 <= pages[0].offset && pages[0].offset <= 0x1000000000000
